@@ -580,12 +580,37 @@ fn execute_inner(c: &Case, paths: &BTreeSet<PathBuf>, stats: &mut RunStats) -> O
             }
         }
         "lsp" => {
-            let main_text = disk::with(|d| d.files.get(&disk::normalize(&Path::new(WS).join("main.asm"))).cloned()).flatten();
+            let main_path = disk::normalize(&Path::new(WS).join("main.asm"));
+            let main_text = disk::with(|d| d.files.get(&main_path).cloned()).flatten();
+            // Between the analysis at start-up and the one triggered by didOpen the disk changes under the
+            // server (a file of the project is deleted, cut to its first line or rewritten outside the editor).
+            // Only when no planned fault alters what a read returns, so that "the file as it is now" is defined.
+            let content_faults = c.faults.iter().any(|f| matches!(f.kind, FaultKind::Truncate(_) | FaultKind::Replace(_)));
+            let mutation = rng::derive(c.entropy_seed, "envsim.lsp.disk_mutation", 0);
+            let victims: Vec<PathBuf> = disk::with(|d| d.files.keys().filter(|p| **p != main_path && p.extension().map(|e| e == "asm").unwrap_or(false)).cloned().collect()).unwrap_or_default();
             let r = std::panic::catch_unwind(std::panic::AssertUnwindSafe(|| {
                 let mut ctx = LspContext::new();
                 let client = ctx.listen_memory_verif();
                 let mut server = LspServer::new(ctx);
-                let mut n = 0usize;
+                let mut published: Vec<(String, u64, String)> = vec![];
+                if !content_faults && !victims.is_empty() && mutation % 2 == 0 {
+                    let v = victims[(mutation / 2 % victims.len() as u64) as usize].clone();
+                    disk::with(|d| match (mutation / 64) % 3 {
+                        0 => {
+                            d.files.remove(&v);
+                            d.log.push(format!("lsp pipeline: {} deleted after start-up", v.display()));
+                        }
+                        1 => {
+                            let first: Vec<u8> = d.files.get(&v).map(|b| b.split_inclusive(|c| *c == b'\n').next().unwrap_or(&[]).to_vec()).unwrap_or_default();
+                            d.files.insert(v.clone(), first);
+                            d.log.push(format!("lsp pipeline: {} cut to its first line after start-up", v.display()));
+                        }
+                        _ => {
+                            d.files.insert(v.clone(), b"nop\n".to_vec());
+                            d.log.push(format!("lsp pipeline: {} rewritten after start-up", v.display()));
+                        }
+                    });
+                }
                 if let Some(Ok(t)) = main_text.map(String::from_utf8) {
                     let uri = lsp_types::Url::from_file_path(Path::new(WS).join("main.asm")).unwrap();
                     let msg = lsp_server::Message::Notification(lsp_server::Notification {
@@ -595,12 +620,16 @@ fn execute_inner(c: &Case, paths: &BTreeSet<PathBuf>, stats: &mut RunStats) -> O
                     let res = server.handle_message(msg);
                     while let Ok(m) = client.receiver.try_recv() {
                         if let lsp_server::Message::Notification(nf) = m {
-                            n += nf.params.get("diagnostics").and_then(|d| d.as_array()).map(|a| a.len()).unwrap_or(0);
+                            let uri = nf.params.get("uri").and_then(|u| u.as_str()).unwrap_or("").to_string();
+                            for dg in nf.params.get("diagnostics").and_then(|d| d.as_array()).cloned().unwrap_or_default() {
+                                let line = dg.get("range").and_then(|r| r.get("end")).and_then(|e| e.get("line")).and_then(|l| l.as_u64()).unwrap_or(0);
+                                published.push((uri.clone(), line, dg.get("message").and_then(|m| m.as_str()).unwrap_or("").to_string()));
+                            }
                         }
                     }
-                    return (res.map_err(|e| e.to_string()), n);
+                    return (res.map_err(|e| e.to_string()), published);
                 }
-                (Ok(()), n)
+                (Ok(()), published)
             }));
             if let Some(v) = passwatch::take_verdict() {
                 return Some(nonterm("lsp", &v));
@@ -612,9 +641,37 @@ fn execute_inner(c: &Case, paths: &BTreeSet<PathBuf>, stats: &mut RunStats) -> O
                     sig: "lsp:handle_message_err".into(),
                     message: format!("didOpen made handle_message return Err (the server's main loop would exit): {}", e),
                 }),
-                Ok((Ok(()), n)) => {
-                    stats.diagnostics += n as u64;
+                Ok((Ok(()), published)) => {
+                    stats.diagnostics += published.len() as u64;
                     stats.result = "ok".into();
+                    if content_faults {
+                        return None;
+                    }
+                    // every published location lies inside a file that exists NOW, within its current length
+                    for (uri, line, message) in &published {
+                        stats.labels_checked += 1;
+                        let path = lsp_types::Url::parse(uri).ok().and_then(|u| u.to_file_path().ok()).map(|p| disk::normalize(&p));
+                        let now: Option<Vec<u8>> = path.as_ref().and_then(|p| disk::with(|d| d.files.get(p).cloned()).flatten());
+                        match now {
+                            None => {
+                                return Some(Found {
+                                    class: "location_outside_project".into(),
+                                    sig: "location:lsp:file_does_not_exist".into(),
+                                    message: format!("pipeline lsp published the diagnostic '{}' for {} (line {}), which does not exist (any more) when it is published", message, uri, line),
+                                });
+                            }
+                            Some(bytes) => {
+                                let lines = bytes.iter().filter(|b| **b == b'\n').count() as u64 + 1;
+                                if *line >= lines {
+                                    return Some(Found {
+                                        class: "location_outside_project".into(),
+                                        sig: "location:lsp:line_beyond_file".into(),
+                                        message: format!("pipeline lsp published the diagnostic '{}' at line {} of {}, which has {} line(s) when it is published", message, line, uri, lines),
+                                    });
+                                }
+                            }
+                        }
+                    }
                     None
                 }
             }
